@@ -97,7 +97,13 @@ def op_process(c):
             finally:
                 os.unlink(path)
         return res(go)
-    return res(lambda: u_fc(DznJsonAst(json.dumps(c['doc'])).process()))
+    # (verbose progress output for every other document: it never influences the result)
+    global _nprocess
+    _nprocess += 1
+    return res(lambda: u_fc(DznJsonAst(json.dumps(c['doc']), verbose=_nprocess % 2 == 0).process()))
+
+
+_nprocess = 0
 
 
 def op_parse_event(c):
